@@ -24,6 +24,9 @@ func hC12Source() string {
 		"declare void @h() addrspace(1)\ndeclare void @k() addrspace(1)\n" +
 		"define void @f() #1 {\n\tret void, !dbg !7\n}\ndeclare void @g() #0\n" +
 		"attributes #1 = { nounwind }\nattributes #0 = { noinline }\n" +
+		// attribute groups that are used but not defined (materialised as empty
+		// groups: the documented exception of C05), on different entities
+		"declare void @u1() #7\ndeclare void @u2() #8 #6\n@u3 = global i32 0 #9\n" +
 		"!n10 = !{!7}\n!n9 = !{!3}\n!" + a + " = !{!3, !7}\n" +
 		"!7 = !{!3}\n!3 = distinct !{}\n!5 = !{!\"s\"}\n"
 }
